@@ -1,5 +1,6 @@
 (* Worker model driver: model_driver lpw prog.txt ckpt_interval < script   (script of harness/drv_lp.c)
-   prints after every script line "S k" followed by one "L lp acc cnt nhist hhist nlogs hlogs bound" line per LP. *)
+   prints after every script line "S k" followed by one "L lp acc cnt nhist hhist nlogs hlogs bound" line per LP and one
+   "M lps_to_end max_t | termination_t of every LP" line (the termination accounting of TW/WorkerTerm.v driving TW/Term.v). *)
 open Model
 open Conv
 
@@ -17,14 +18,21 @@ let dump k (p : prog) (w : worker) =
     Printf.printf "L %d %s %s %d %s %d %s %s\n" i (string_of_n acc) (string_of_n cnt) (int_of_nat_ nh) (string_of_n hh)
       (int_of_nat_ nl) (string_of_n hl) (string_of_z_ bound)) ds
 
+(* SIMTIME_MAX of the termination model: any value above every tick the programs reach *)
+let tmax : z = z_of_int max_int
+let string_of_time (z : z) : string = if z = tmax then "MAX" else (match z with Zneg _ -> "-1" | _ -> string_of_z_ z)
+let dump_term (ts : tstate) =
+  let ((te, mt), terms) = tdigest ts in
+  Printf.printf "M %s %s |%s\n" (string_of_z_ te) (string_of_time mt) (String.concat "" (List.map (fun t -> " " ^ string_of_time t) terms))
+
 let run () =
   let p = Drv_seq.load Sys.argv.(2) in
   let ck = nat_of_int (int_of_string Sys.argv.(3)) in
-  let w = ref (w_init p) in
+  let w = ref (tw_init p tmax) in
   let k = ref 0 in
   (* hypothesis of the no-error / exactly-once theorems (TW/WorkerOnceApp.v): every schedulable type is below LP_INIT *)
   Printf.printf "T %d\n" (if types_okb p then 1 else 0);
-  dump !k p !w;
+  dump !k p (fst !w); dump_term (snd !w);
   iter_lines (fun line ->
     match split line with
     | [] -> ()
@@ -39,5 +47,5 @@ let run () =
         | 'E' -> Some (OpE (nat_of_int 2000000))
         | _ -> None) in
       (match o with
-       | Some o -> w := wstep p ck !w o; incr k; dump !k p !w
+       | Some o -> w := twstep p ck tmax !w o; incr k; dump !k p (fst !w); dump_term (snd !w)
        | None -> ()))
